@@ -209,7 +209,7 @@ def family_randsz(tier, seed, n=None):
     """random-size lists: the size is always bounded by a top-level constraint (otherwise an open zone)"""
     out = []
     kinds = ["size_only", "fe_it", "fe_idx", "sum_fixed", "uniq", "coupled", "edit_after", "rs_sum", "rs_member",
-             "rs_sum_sizelast", "rs_member_sizeblock", "rs_prod"]
+             "rs_sum_sizelast", "rs_member_sizeblock", "rs_prod", "cap_expr"]
     per = 2 if tier == "quick" else 20
     for kind in kinds:
         for t in range(per):
@@ -229,6 +229,15 @@ def family_randsz(tier, seed, n=None):
             fields = [fld("a", 2, False), fld("k", 2, False, rand=False, init=rnd.randrange(4)),
                       list_field("l", w, False, randsz=True, cap=5)]
             body = [E({"k": "in", "e": {"k": "size", "l": "l"}, "items": [{"k": "r", "lo": lit(lo), "hi": lit(hi)}], "neg": False})]
+            if kind == "cap_expr":
+                # the size is capped by a non-random EXPRESSION (also written on the left of the relation): every admitted size
+                # - the cap itself included - yields a list of that many elements
+                kq = fields[1]["init"] % 3
+                capx = B("add", F("k"), lit(3 - kq))                        # k + (3 - k) = 3 with the initial k
+                fields[1]["init"] = kq
+                body = [E(B("ge", capx, {"k": "size", "l": "l"})) if t % 2 == 0 else E(B("le", {"k": "size", "l": "l"}, capx)),
+                        {"k": "soft", "e": B("eq", {"k": "size", "l": "l"}, capx)},
+                        FE("l", "i", [E(B("le", IT("i"), lit((1 << w) - 1)))])]
             if kind == "fe_it":
                 body.append(FE("l", "i", [E(B(rnd.choice(["ne", "le", "ge"]), IT("i"), lit(rnd.randrange(1 << w))))]))
             elif kind == "fe_idx":
